@@ -26,10 +26,33 @@ func scanTable(c *core.Ctx) (rs rows, runs int, lit *ssa.Function, undecided str
 	rs = rows{}
 	meta := c.Named("component_definition", "Meta")
 	scan := c.DeclaredMethod(meta, "scanFields")
-	if scan == nil || len(scan.AnonFuncs) != 1 {
-		return rs, 0, nil, "Meta.scanFields with exactly one field callback not found"
+	if scan == nil {
+		return rs, 0, nil, "Meta.scanFields not found"
 	}
-	lit = scan.AnonFuncs[0]
+	// the per-field callback: the function value scanFields (or a helper it is split into) hands to a struct-field
+	// iterator of util/reflectx - a literal, or a method value of a parameter object
+	var cbs []*ssa.Function
+	for _, fn := range c.StaticCalleesInPkg(scan, nil) {
+		for _, g := range core.WithAnon(fn) {
+			for _, ci := range core.Calls(g) {
+				cal := ci.Common().StaticCallee()
+				if cal == nil || cal.Pkg == nil || !strings.HasSuffix(cal.Pkg.Pkg.Path(), "util/reflectx") {
+					continue
+				}
+				for _, a := range ci.Common().Args {
+					if _, isSig := a.Type().Underlying().(*types.Signature); isSig {
+						if cb := resolveWrapper(core.ClosureOf(a)); cb != nil && cb.Blocks != nil {
+							cbs = append(cbs, cb)
+						}
+					}
+				}
+			}
+		}
+	}
+	if len(cbs) != 1 {
+		return rs, 0, nil, fmt.Sprintf("Meta.scanFields hands %d field callbacks to a struct-field iterator (want exactly one)", len(cbs))
+	}
+	lit = cbs[0]
 	newEmbed := c.Func("component_definition", "NewEmbedHolder")
 	holderT := c.Named("component_definition", "Holder")
 	for _, anonymous := range []bool{true, false} {
@@ -71,19 +94,34 @@ func scanTable(c *core.Ctx) (rs rows, runs int, lit *ssa.Function, undecided str
 							return nil
 						}
 						_ = newEmbed
+						pick := func(ty types.Type) absint.Value {
+							switch ty.String() {
+							case "reflect.StructField":
+								return sf
+							case "reflect.Value":
+								return value
+							}
+							if pt, ok := ty.Underlying().(*types.Pointer); ok {
+								switch core.NamedOf(pt.Elem()) {
+								case holderT:
+									return holder
+								case meta:
+									return m
+								}
+							}
+							return nil
+						}
 						var bind []absint.Value
 						for _, fv := range lit.FreeVars {
-							et := fv.Type()
-							if pt, ok := et.Underlying().(*types.Pointer); ok {
-								et = pt.Elem()
+							// a captured variable is a cell holding the value
+							et := fv.Type().Underlying().(*types.Pointer).Elem()
+							v := valueOfType(et, pick, 0)
+							if v == nil {
+								panic(&absint.Undecided{Msg: "the field callback captures a " + et.String()})
 							}
-							if core.NamedOf(et) == holderT {
-								bind = append(bind, &absint.Cell{V: holder})
-							} else {
-								bind = append(bind, &absint.Cell{V: m})
-							}
+							bind = append(bind, &absint.Cell{V: v})
 						}
-						return t, []absint.Value{sf, value}, bind
+						return t, layoutArgs(lit, pick), bind
 					}
 					check := func(ip *absint.Interp, out absint.Outcome) {
 						fl, _ := m.Fields["Fields"].(*absint.List)
@@ -423,6 +461,40 @@ func writerRules(c *core.Ctx, r *core.Report, rule string) {
 				}
 			}
 			if !ok {
+				// a setter helper that writes through its own reflect.Value parameter, called (within reach) only by
+				// table writers that hand it their own target
+				if p, isP := core.Norm(ci.Common().Args[0]).(*ssa.Parameter); isP && p.Type().String() == "reflect.Value" && len(c.FuncValueUses(fn)) == 0 {
+					idx := -1
+					for i, q := range fn.Params {
+						if q == p {
+							idx = i
+						}
+					}
+					sites := c.CallSites(func(com *ssa.CallCommon) bool { return core.IsCallTo(com, fn) })
+					okAll := idx >= 0 && len(sites) > 0
+					for _, s := range sites {
+						caller := s.Parent()
+						if !inReach(c, run, caller) {
+							continue
+						}
+						w, okC := allowed[caller]
+						for a, w2 := range allowed {
+							a := a
+							if !okC && withinRole(c, caller, func(g *ssa.Function) bool { return g == a }, 2) {
+								w, okC = w2, true
+							}
+						}
+						arg := core.Norm(s.Common().Args[idx])
+						_, argIsParam := arg.(*ssa.Parameter)
+						if !okC || !(argIsParam || baseFieldLoad(c, arg, "Value") || propFieldLoad(c, arg, "Value")) {
+							okAll = false
+						}
+						why = w + " (through the setter helper " + core.FnName(fn) + ")"
+					}
+					ok = okAll && why != ""
+				}
+			}
+			if !ok {
 				r.Fail(rule, cons, c.Pos(ci.Pos()), "a reflect write reachable from App.Run outside the frozen writer table: the container could modify something it was not asked to")
 				continue
 			}
@@ -494,6 +566,89 @@ func c11HolderReaders(c *core.Ctx, r *core.Report) {
 	}
 }
 
+// tagGateOf: block b runs only when a property's Tag / PropertyType equals a constant - tested in place or by a
+// predicate helper that can answer true only under such a test.
+func tagGateOf(c *core.Ctx, b *ssa.BasicBlock, depth int) string {
+	for _, g := range core.Guards(b) {
+		if gate := condImpliesTag(c, g.If.Cond, g.Branch, depth); gate != "" {
+			return gate
+		}
+	}
+	return ""
+}
+
+// condImpliesTag: cond having truth value `branch` implies Tag/PropertyType == constant.
+func condImpliesTag(c *core.Ctx, cond ssa.Value, branch bool, depth int) string {
+	switch x := cond.(type) {
+	case *ssa.UnOp:
+		if x.Op == token.NOT {
+			return condImpliesTag(c, x.X, !branch, depth)
+		}
+	case *ssa.BinOp:
+		if x.Op != token.EQL && x.Op != token.NEQ {
+			return ""
+		}
+		for _, fld := range []string{"Tag", "PropertyType"} {
+			var k string
+			var isK bool
+			if propFieldLoad(c, x.X, fld) {
+				k, isK = core.ConstString(x.Y)
+			} else if propFieldLoad(c, x.Y, fld) {
+				k, isK = core.ConstString(x.X)
+			}
+			if isK && k != "" && ((x.Op == token.EQL && branch) || (x.Op == token.NEQ && !branch)) {
+				return fld + "==" + k
+			}
+		}
+	case *ssa.Call:
+		cal := x.Common().StaticCallee()
+		if !branch || depth > 2 || cal == nil || cal.Blocks == nil || !c.InScope(cal) || cal.Signature.Results().Len() != 1 {
+			return ""
+		}
+		// a predicate helper: every way it answers true lies under such a test
+		var trueImplies func(v ssa.Value, at *ssa.BasicBlock, d int) string
+		trueImplies = func(v ssa.Value, at *ssa.BasicBlock, d int) string {
+			if k, ok := v.(*ssa.Const); ok && k.Value != nil && k.Value.String() == "false" {
+				return "never"
+			}
+			if gate := tagGateOf(c, at, depth+1); gate != "" {
+				return gate
+			}
+			if gate := condImpliesTag(c, v, true, depth+1); gate != "" {
+				return gate
+			}
+			if phi, ok := v.(*ssa.Phi); ok && d < 4 {
+				gate := "never"
+				for i, e := range phi.Edges {
+					g := trueImplies(e, phi.Block().Preds[i], d+1)
+					if g == "" {
+						return ""
+					}
+					if g != "never" {
+						gate = g
+					}
+				}
+				return gate
+			}
+			return ""
+		}
+		gate := "never"
+		for _, ret := range core.Returns(cal) {
+			g := trueImplies(ret.Results[0], ret.Block(), 0)
+			if g == "" {
+				return ""
+			}
+			if g != "never" {
+				gate = g
+			}
+		}
+		if gate != "never" {
+			return gate + " (via " + cal.Name() + ")"
+		}
+	}
+	return ""
+}
+
 func c11TagGate(c *core.Ctx, r *core.Report, p *procInfo) {
 	prop := c.Named("component_definition", "Property")
 	unm := c.DeclaredMethod(prop, "Unmarshall")
@@ -525,25 +680,7 @@ func c11TagGate(c *core.Ctx, r *core.Report, p *procInfo) {
 					continue
 				}
 				n++
-				gated := ""
-				for _, g := range core.Guards(b) {
-					bo, ok := g.If.Cond.(*ssa.BinOp)
-					if !ok || (bo.Op != token.EQL && bo.Op != token.NEQ) {
-						continue
-					}
-					for _, fld := range []string{"Tag", "PropertyType"} {
-						var k string
-						var isK bool
-						if propFieldLoad(c, bo.X, fld) {
-							k, isK = core.ConstString(bo.Y)
-						} else if propFieldLoad(c, bo.Y, fld) {
-							k, isK = core.ConstString(bo.X)
-						}
-						if isK && k != "" && ((bo.Op == token.EQL && g.Branch) || (bo.Op == token.NEQ && !g.Branch)) {
-							gated = fld + "==" + k
-						}
-					}
-				}
+				gated := tagGateOf(c, b, 0)
 				r.Check(gated != "", "C11.R6", fmt.Sprintf("tag-gate:%s:%s#%d", p.Name(), what, n), c.Pos(in.Pos()), "the field-writing action is dominated by a test of the property's own tag / kind ("+gated+"): fields carrying other tags are never written")
 			}
 		}
